@@ -28,6 +28,8 @@ KINDS = {
     43: 'the native effect differs from the arguments passed to the system contract',
     44: 'total supply changed, or balances no longer add up to it',
     45: 'coins burned by a slash did not arrive at the fee collector',
+    46: 'a step or the block boundary after it panicked outside any recovery (the chain would halt)',
+    47: 'state outside the observed universe appeared (another denomination, an unknown validator, a failing reward query)',
 }
 
 EVK = ['Delegated', 'Undelegated', 'Redelegated', 'Withdrew', 'Voted', 'VotedWeighted']
@@ -204,9 +206,11 @@ def astep_term(nm, env, st, o):
         kind = 0
     else:
         tx, vres, kind = DUMMY_TX, '[]', (2 if st['t'] == 'slash' else 1)
-    return ('{| a_kind := %s; a_tx := %s; a_vres := %s; a_pre := %s; a_post := %s; a_class := %s; a_logs := %s |}' % (
-        nat(kind), tx, vres, snap_term(nm, o['pre']), snap_term(nm, o['post']), nat(o['class']),
-        coq_list([log_term(nm, l) for l in (o.get('logs') or [])])))
+    other_ok = not o['pre'].get('other') and not o['post'].get('other')
+    return ('{| a_kind := %s; a_tx := %s; a_vres := %s; a_pre := %s; a_post := %s; a_class := %s; a_logs := %s; '
+            'a_halt := %s; a_other_ok := %s |}' % (
+                nat(kind), tx, vres, snap_term(nm, o['pre']), snap_term(nm, o['post']), nat(o['class']),
+                coq_list([log_term(nm, l) for l in (o.get('logs') or [])]), coq_bool(bool(o.get('halt'))), coq_bool(other_ok)))
 
 
 def acase_term(nm, r):
@@ -256,11 +260,17 @@ def corpus_hook(env):
         dict(id=-11, which='multi', fail_at=0, logs=[voted, delegated(7), voted]),         # staking fails, gov never runs
         dict(id=-12, which='multi', fail_at=1, logs=[voted, delegated(7), voted]),         # gov's first fails after staking ran
         dict(id=-13, which='multi', fail_at=-1, logs=[voted, delegated(7), voted, delegated(8)]),
+        # near-miss addresses: same low 4 / 8 / 19 bytes as the system contract, and the other system contract
+        dict(id=-14, which='multi', fail_at=-1, logs=[dict(delegated(9), addr='11' * 16 + env['staking'][32:]),
+                                                       dict(delegated(9), addr='11' * 12 + env['staking'][24:]),
+                                                       dict(delegated(9), addr='01' + env['staking'][2:]),
+                                                       dict(delegated(9), addr=env['gov']), dict(voted, addr=env['staking']),
+                                                       dict(voted, addr='11' * 12 + env['gov'][24:])]),
     ]
 
 
 CORPUS_EXPECT = {-1: (1, 1), -2: (0, 2), -3: (2, 0), -4: (2, 0), -5: (0, 1), -6: (1, 0), -7: (1, 0), -8: (1, 1), -9: (1, 0),
-                 -10: (1, 0), -11: (1, 0), -12: (1, 1), -13: (0, 4)}   # id -> (class, number of messages)
+                 -10: (1, 0), -11: (1, 0), -12: (1, 1), -13: (0, 4), -14: (0, 0)}   # id -> (class, number of messages)
 
 
 def evaluate(workdir, results, mode, tag, shard=None):
@@ -303,7 +313,7 @@ def run_generated(run, mode, n, procs, extra=()):
 
     def one(p):
         outp = os.path.join(run.work, '%s_out_%d.jsonl' % (mode, p))
-        hmode, cflag = ('app', ['-corpus']) if mode == 'appcorpus' else (mode, [])
+        hmode, cflag = {'appcorpus': ('app', ['-corpus']), 'appsweep': ('app', ['-sweep'])}.get(mode, (mode, []))
         rc, o = vlib.run_harness('c17', ['-mode', hmode, '-seed', run.seed, '-from', p * per, '-n', per, '-out', outp] + cflag + list(extra))
         if rc != 0:
             return ('error', o[-3000:])
@@ -405,19 +415,35 @@ def leaves(n):
 CLASSES = {0: 'ok', 1: 'evm-failed', 2: 'hook-failed', 3: 'tx-rejected', 4: 'panic-recovered'}
 
 
+def coqchk_wiring(run):
+    """vlib's coqchk stage covers Props/C17 and Refuted/C17_*; the wiring obligations live in their own file"""
+    import re
+    with vlib.Lock('coq'):
+        rc, out = vlib.sh(['coqchk', '-silent', '-o', '-Q', vlib.THEORIES, 'Teleport', 'Teleport.Props.C17_wiring'],
+                          cwd=vlib.COQ, timeout=2400)
+    m = re.search(r'\* Axioms:(.*?)\n\s*\n\* Constants', out, flags=re.S)
+    axioms = m.group(1).strip() if m else 'unparsed'
+    run.coverage['coqchk_wiring'] = dict(cmd='coqchk -silent -o -Q theories Teleport Teleport.Props.C17_wiring', rc=rc, axioms=axioms)
+    if rc != 0 or axioms != '<none>':
+        run.proof['build_ok'] = False
+        run.proof['build_log'] += '\n[coqchk C17_wiring]\n' + out[-2000:]
+
+
 def check(run):
     # Model/AdapterCheck.v (comparison + monitors evaluated on the traces) must be rebuilt with the models it imports
-    run.proof_stage(extra_modules=['theories/Model/AdapterCheck.v'])
+    # Props/C17_wiring.v: the obligations over the terms regenerated from app.go / adapter.go / handler.go / the ABI
+    run.proof_stage(extra_modules=['theories/Props/C17_wiring.v', 'theories/Model/AdapterCheck.v'])
     if not run.quick():
         run.coqchk_stage()
+        coqchk_wiring(run)
     ok, out = vlib.build_harness(['c17'])
     if not ok:
         run.violation(dict(kind='harness-build-failed', log=out[-3000:],
                            explanation='the correspondence harness no longer builds against /repo'), no_input=True)
         return run.finish()
 
-    n_hook = run.budget(4000, 100000)
-    n_app = run.budget(144, 3000)
+    n_hook = run.budget(3000, 50000)
+    n_app = run.budget(100, 1600)
     hooks, err = run_generated(run, 'hook', n_hook, 8)
     if hooks:
         env0 = vlib.read_jsonl(os.path.join(run.work, 'hook_out_0.jsonl'))[0]['env']
@@ -441,12 +467,20 @@ def check(run):
         else:
             n_corpus = len(capps)
             apps = capps + apps
+            if not run.quick():
+                # thorough: every depth-2 call shape of the helper contracts (480 one-transaction histories)
+                sweep, err2 = run_generated(run, 'appsweep', 480, 12)
+                if sweep is None:
+                    apps = None
+                else:
+                    run.coverage['app_sweep_histories'] = len(sweep)
+                    apps = apps + sweep
     if hooks is None or apps is None:
         run.violation(dict(kind='harness-crashed', log=(err or err2)), no_input=True)
         return run.finish()
 
-    hm, hf = evaluate(run.work, hooks, 'hook', 'cases')
-    am, af = (None, hf) if hm is None else evaluate(run.work, apps, 'app', 'cases')
+    # the two evaluations are independent: run them side by side
+    (hm, hf), (am, af) = vlib.parallel(lambda x: evaluate(run.work, x[0], x[1], 'cases'), [(hooks, 'hook'), (apps, 'app')], workers=2)
     if hm is None or am is None:
         run.violation(dict(kind='coq-evaluation-failed', log=hf if hm is None else af), no_input=True)
         return run.finish()
@@ -520,12 +554,17 @@ def check(run):
         'NOT proved, only validated by the application run: EVM execution and the byte code of Staking/Gov, ethermint '
         'ApplyTransaction atomicity (temporary context, hook error => revert), BaseApp panic recovery, cosmos-sdk handlers',
         'oracles tabulated from the real code: validator string -> validator (bech32 + lookup), pending rewards per delegation',
-        'hand-assembled EVM byte code of the helper contracts (harness/cmd/c17/asm.go)']
+        'hand-assembled EVM byte code of the helper contracts (harness/cmd/c17/asm.go)',
+        'translator tools/gotocoq/adapterwiring (go/ast + own keccak256): hook list, bank keepers, filtered addresses, handler '
+        'tables and ABI event schemas / ids regenerated from the Go source on every run; Props/C17_wiring.v proves the model\'s '
+        'constants equal to them']
     run.assumptions += [
-        'user transactions only: module-originated EVM calls (x/xibc CallEVMWithData) commit EVM state before the hooks run '
-        '(defect D1, C03) and are out of scope here',
+        'user Ethereum transactions (DeliverTx); module-originated EVM calls are out of scope: x/xibc CallEVMWithData runs the '
+        'hooks on a state branch since 0a3e419 (covered by C03), x/aggregate CallEVMWithData never runs the EVM hooks',
         'the other EVM hooks of app.go (aggregate, xibc packet) ignore the logs of these transactions',
-        'validators bonded at exchange rate 1 in the native model (slashing only ends a history)']
+        'validators bonded at exchange rate 1 in the native model (slashing only ends a history)',
+        'only the system contract\'s own code lives at a system address (adapters\' InitGenesis, run by the harness; necessity: '
+        'Refuted/C17_refuted.v C17_wf_tx_necessary_refuted)']
 
     # ---- decide -----------------------------------------------------------------------------------
     def report(mode, results, lst, which):
